@@ -1,1 +1,442 @@
-// placeholder
+//! Unreal 2 query reference server (node-gamedig unreal2.js).
+
+use super::*;
+use crate::vnet::{Chooser, ConnInfo, Responder};
+use gamedig::protocols::unreal2 as u2;
+use std::collections::{HashMap, HashSet};
+
+/// A string as the server holds it, plus how it is put on the wire.
+#[derive(Clone, Debug, PartialEq)]
+pub struct UStr {
+    /// characters (code points < 0x100 for Latin-1 encoding), may contain
+    /// colour escapes (1B r g b) and control characters 01..1A
+    pub chars: Vec<char>,
+    pub ucs2: bool,
+    /// empty strings only: encode as a bare length byte 0 (true) or as
+    /// length 1 + terminator (false)
+    pub bare_empty: bool,
+}
+
+impl UStr {
+    pub fn plain(s: &str) -> Self {
+        Self {
+            chars: s.chars().collect(),
+            ucs2: false,
+            bare_empty: true,
+        }
+    }
+
+    pub fn encode(&self, out: &mut Vec<u8>) {
+        if self.chars.is_empty() && self.bare_empty {
+            out.push(if self.ucs2 { 0x80 } else { 0x00 });
+            return;
+        }
+        if self.ucs2 {
+            let units: Vec<u16> = self
+                .chars
+                .iter()
+                .collect::<String>()
+                .encode_utf16()
+                .collect();
+            let n = units.len() + 1;
+            assert!(n <= 0x7f);
+            out.push(0x80 | n as u8);
+            for u in units {
+                out.extend_from_slice(&u.to_le_bytes());
+            }
+            out.extend_from_slice(&[0, 0]);
+        } else {
+            let n = self.chars.len() + 1;
+            assert!(n <= 0x7f);
+            out.push(n as u8);
+            for ch in &self.chars {
+                assert!((*ch as u32) < 0x100);
+                out.push(*ch as u32 as u8);
+            }
+            out.push(0);
+        }
+    }
+
+    /// What the client must return: colour escapes (1B + 3) and 01..1A removed.
+    pub fn expected(&self) -> String {
+        let mut out = String::new();
+        let mut skip = 0;
+        for ch in &self.chars {
+            if skip > 0 {
+                skip -= 1;
+                continue;
+            }
+            if *ch == '\x1b' {
+                skip = 3;
+                continue;
+            }
+            if *ch > '\x00' && *ch <= '\x1a' {
+                continue;
+            }
+            out.push(*ch);
+        }
+        out
+    }
+}
+
+#[derive(Clone, Debug, PartialEq)]
+pub struct UPlayer {
+    pub id: u32,
+    pub name: UStr,
+    pub ping: u32,
+    pub score: i32,
+    pub stats_id: u32,
+}
+
+#[derive(Clone, Debug, PartialEq)]
+pub struct UState {
+    pub server_id: u32,
+    pub ip: UStr,
+    pub game_port: u32,
+    pub query_port: u32,
+    pub name: UStr,
+    pub map: UStr,
+    pub game_type: UStr,
+    pub num_players: u32,
+    pub max_players: u32,
+    /// (key, value) in order, keys may repeat; "mutator" keys list mutators
+    pub rules: Vec<(UStr, UStr)>,
+    pub players: Vec<UPlayer>,
+}
+
+fn header(kind: u8) -> Vec<u8> { vec![0x80, 0, 0, 0, kind] }
+
+impl UState {
+    pub fn info_datagram(&self) -> Vec<u8> {
+        let mut b = header(0);
+        b.extend_from_slice(&self.server_id.to_le_bytes());
+        self.ip.encode(&mut b);
+        b.extend_from_slice(&self.game_port.to_le_bytes());
+        b.extend_from_slice(&self.query_port.to_le_bytes());
+        self.name.encode(&mut b);
+        self.map.encode(&mut b);
+        self.game_type.encode(&mut b);
+        b.extend_from_slice(&self.num_players.to_le_bytes());
+        b.extend_from_slice(&self.max_players.to_le_bytes());
+        b
+    }
+
+    /// Rules in `k` datagrams (cut at pair boundaries, evenly).
+    pub fn rules_datagrams(&self, k: usize) -> Vec<Vec<u8>> {
+        let k = k.max(1);
+        let n = self.rules.len();
+        (0 .. k)
+            .map(|i| {
+                let mut b = header(1);
+                for (key, val) in &self.rules[n * i / k .. n * (i + 1) / k] {
+                    key.encode(&mut b);
+                    val.encode(&mut b);
+                }
+                b
+            })
+            .collect()
+    }
+
+    pub fn players_datagrams(&self, k: usize) -> Vec<Vec<u8>> {
+        let k = k.max(1);
+        let n = self.players.len();
+        (0 .. k)
+            .map(|i| {
+                let mut b = header(2);
+                for p in &self.players[n * i / k .. n * (i + 1) / k] {
+                    b.extend_from_slice(&p.id.to_le_bytes());
+                    p.name.encode(&mut b);
+                    b.extend_from_slice(&p.ping.to_le_bytes());
+                    b.extend_from_slice(&p.score.to_le_bytes());
+                    b.extend_from_slice(&p.stats_id.to_le_bytes());
+                }
+                b
+            })
+            .collect()
+    }
+
+    pub fn expected_info(&self) -> u2::ServerInfo {
+        let mut password = false;
+        let mut pw = String::new();
+        let mut seen = false;
+        for (k, v) in &self.rules {
+            if k.expected() == "GamePassword" {
+                seen = true;
+                pw.push_str(&v.expected());
+            }
+        }
+        if seen {
+            password = pw.to_lowercase() == "true";
+        }
+        u2::ServerInfo {
+            server_id: self.server_id,
+            ip: self.ip.expected(),
+            game_port: self.game_port,
+            query_port: self.query_port,
+            name: self.name.expected(),
+            map: self.map.expected(),
+            game_type: self.game_type.expected(),
+            num_players: self.num_players,
+            max_players: self.max_players,
+            password,
+        }
+    }
+
+    pub fn expected_rules(&self) -> u2::MutatorsAndRules {
+        let mut mutators = HashSet::new();
+        let mut rules: HashMap<String, Vec<String>> = HashMap::new();
+        for (k, v) in &self.rules {
+            let k = k.expected();
+            if k.eq_ignore_ascii_case("mutator") {
+                mutators.insert(v.expected());
+            } else {
+                rules.entry(k).or_default().push(v.expected());
+            }
+        }
+        u2::MutatorsAndRules { mutators, rules }
+    }
+
+    pub fn expected_players(&self) -> u2::Players {
+        let conv = |p: &UPlayer| {
+            u2::Player {
+                id: p.id,
+                name: p.name.expected(),
+                ping: p.ping,
+                score: p.score,
+                stats_id: p.stats_id,
+            }
+        };
+        u2::Players {
+            players: self.players.iter().filter(|p| p.ping != 0).map(conv).collect(),
+            bots: self.players.iter().filter(|p| p.ping == 0).map(conv).collect(),
+        }
+    }
+
+    pub fn expected(&self, want_rules: bool, want_players: bool) -> u2::Response {
+        let mut info = self.expected_info();
+        if !want_rules {
+            info.password = false;
+        }
+        u2::Response {
+            server_info: info,
+            mutators_and_rules: if want_rules { self.expected_rules() } else { u2::MutatorsAndRules::default() },
+            players: if want_players {
+                self.expected_players()
+            } else {
+                u2::Players {
+                    players: vec![],
+                    bots: vec![],
+                }
+            },
+        }
+    }
+}
+
+/// Content classes for one string (within the documented domain: Latin-1
+/// payload bytes outside 80..9F; colour components non-zero).
+pub fn ustr_alts(default: &str) -> Vec<UStr> {
+    let d: Vec<char> = default.chars().collect();
+    let mut v = vec![UStr::plain(default)];
+    // empty, both spellings
+    v.push(UStr {
+        chars: vec![],
+        ucs2: false,
+        bare_empty: true,
+    });
+    v.push(UStr {
+        chars: vec![],
+        ucs2: false,
+        bare_empty: false,
+    });
+    // high Latin-1
+    v.push(UStr::plain("Zürich café ÿ"));
+    // long strings (length bytes 0x3D and 0x7F)
+    v.push(UStr::plain(&long_string(60)));
+    v.push(UStr::plain(&long_string(126)));
+    // colour escape at start / middle / end / back to back
+    let col = ['\x1b', '\u{40}', '\u{ff}', '\u{10}'];
+    let mut s = col.to_vec();
+    s.extend(d.iter());
+    v.push(UStr {
+        chars: s,
+        ucs2: false,
+        bare_empty: true,
+    });
+    let mut s: Vec<char> = d[.. d.len() / 2].to_vec();
+    s.extend(col);
+    s.extend(&d[d.len() / 2 ..]);
+    v.push(UStr {
+        chars: s,
+        ucs2: false,
+        bare_empty: true,
+    });
+    let mut s = d.clone();
+    s.extend(col);
+    v.push(UStr {
+        chars: s,
+        ucs2: false,
+        bare_empty: true,
+    });
+    let mut s = col.to_vec();
+    s.extend(col);
+    s.extend(d.iter());
+    v.push(UStr {
+        chars: s,
+        ucs2: false,
+        bare_empty: true,
+    });
+    // control characters 01..1A inside
+    let mut s = d.clone();
+    s.insert(d.len() / 2, '\x01');
+    s.push('\x1a');
+    v.push(UStr {
+        chars: s,
+        ucs2: false,
+        bare_empty: true,
+    });
+    // UCS-2 variants
+    v.push(UStr {
+        chars: d.clone(),
+        ucs2: true,
+        bare_empty: true,
+    });
+    v.push(UStr {
+        chars: "Привет 東京".chars().collect(),
+        ucs2: true,
+        bare_empty: true,
+    });
+    let mut s = d.clone();
+    s.extend(col);
+    s.push('x');
+    v.push(UStr {
+        chars: s,
+        ucs2: true,
+        bare_empty: true,
+    });
+    v.push(UStr {
+        chars: vec![],
+        ucs2: true,
+        bare_empty: false,
+    });
+    v
+}
+
+/// Every length-byte value: a plain string of exactly `n - 1` characters
+/// (Latin-1, n = 1..=127) or `n - 1` UCS-2 units.
+pub fn ustr_of_len_byte(len_byte: u8) -> Option<UStr> {
+    let ucs2 = len_byte >= 0x80;
+    let n = (len_byte & 0x7f) as usize;
+    if n == 0 {
+        return Some(UStr {
+            chars: vec![],
+            ucs2,
+            bare_empty: true,
+        });
+    }
+    let chars: Vec<char> = (0 .. n - 1).map(|i| (b'a' + (i % 26) as u8) as char).collect();
+    Some(UStr {
+        chars,
+        ucs2,
+        bare_empty: false,
+    })
+}
+
+pub fn pick_ustr(c: &mut Chooser, default: &str) -> UStr { pick(c, &ustr_alts(default)) }
+
+pub fn gen_u2(c: &mut Chooser, rule_counts: &[usize], player_counts: &[usize]) -> UState {
+    let server_id = pick(c, &u32_alts(5));
+    let ip = pick_ustr(c, "203.0.113.5");
+    let game_port = pick(c, &u32_alts(7777));
+    let query_port = pick(c, &u32_alts(7778));
+    let name = pick_ustr(c, "An Unreal server");
+    let map = pick_ustr(c, "DM-Rankin");
+    let game_type = pick_ustr(c, "xDeathMatch");
+    let num_players = pick(c, &[2u32, 0, 1, 64, u32::MAX]);
+    let max_players = pick(c, &u32_alts(16));
+    let nr = pick(c, rule_counts);
+    let mut rules: Vec<(UStr, UStr)> = Vec::new();
+    for i in 0 .. nr {
+        if i < 3 {
+            let key = pick(c, &[
+                UStr::plain(["ServerMode", "AdminName", "Mutator"][i]),
+                UStr::plain("mutator"),
+                UStr::plain("GamePassword"),
+                UStr::plain("AdminName"),
+                UStr {
+                    chars: "Ключ".chars().collect(),
+                    ucs2: true,
+                    bare_empty: true,
+                },
+            ]);
+            let val = pick(c, &{
+                let mut a = ustr_alts(["dedicated", "root", "MutInstaGib"][i]);
+                a.push(UStr::plain("True"));
+                a.push(UStr::plain("false"));
+                a
+            });
+            rules.push((key, val));
+        } else {
+            rules.push((
+                UStr::plain(&format!("Rule{}", i % 7)),
+                UStr::plain(&format!("value{i}")),
+            ));
+        }
+    }
+    let np = pick(c, player_counts);
+    let players = (0 .. np)
+        .map(|i| {
+            if i < 2 {
+                UPlayer {
+                    id: pick(c, &u32_alts(i as u32)),
+                    name: pick_ustr(c, if i == 0 { "Alice" } else { "Bot Bob" }),
+                    ping: pick(c, &[if i == 0 { 42u32 } else { 0 }, 0, 1, u32::MAX]),
+                    score: pick(c, &i32_alts(17)),
+                    stats_id: pick(c, &u32_alts(0)),
+                }
+            } else {
+                UPlayer {
+                    id: i as u32,
+                    name: UStr::plain(&format!("p{i}")),
+                    ping: if i % 3 == 0 { 0 } else { 30 + i as u32 },
+                    score: i as i32 - 5,
+                    stats_id: 0,
+                }
+            }
+        })
+        .collect();
+    UState {
+        server_id,
+        ip,
+        game_port,
+        query_port,
+        name,
+        map,
+        game_type,
+        num_players,
+        max_players,
+        rules,
+        players,
+    }
+}
+
+pub struct U2Server {
+    pub state: UState,
+    pub rule_packets: usize,
+    pub player_packets: usize,
+}
+
+pub fn u2_request(kind: u8) -> Vec<u8> { vec![0x79, 0, 0, 0, kind] }
+
+impl Responder for U2Server {
+    fn on_datagram(&mut self, _c: &ConnInfo, data: &[u8]) -> Vec<Vec<u8>> {
+        if data.len() != 5 || data[.. 4] != [0x79, 0, 0, 0] {
+            return vec![];
+        }
+        match data[4] {
+            0 => vec![self.state.info_datagram()],
+            1 => self.state.rules_datagrams(self.rule_packets),
+            2 => self.state.players_datagrams(self.player_packets),
+            _ => vec![],
+        }
+    }
+}
